@@ -583,6 +583,10 @@ func runBL(j *Job) map[string]interface{} {
 		bl.AddBits(a(0), byte(a(1)))
 	case "AddByte":
 		bl.AddByte(byte(a(0)))
+	case "AddByteN": // a(1) consecutive AddByte(a(0)) calls, logged as one event
+		for k := 0; k < a(1); k++ {
+			bl.AddByte(byte(a(0)))
+		}
 	case "SetBit":
 		bl.SetBit(a(0), a(1) == 1)
 	case "GetBit":
